@@ -47,6 +47,11 @@ package flyt
 //@   ghost ph int = 0; nExec int = 0; nFb int = 0; nPost int = 0
 //@   ghost pv any = nil; perr error = nil; lastRes any = nil; lastErr error = nil; attErr error = nil
 //@   ghost postAct Action = ""; postErr error = nil; lastEnd int = now
+//@   ghost nBatch int = 0; bAct Action = ""; bErr error = nil
+//@   on call runBatch(c, n, s) returns (a, e)
+//@     requires [C04,C06,C18] nBatch == 0 && ph == 0 && c == ctx && s == shared && isBatch(node)
+//@     requires [C04,C06,C18] n == node || (isType(node, *BatchNodeBuilder) && n == box(node.(*BatchNodeBuilder).BatchNode, *BatchNode))
+//@     effect nBatch = 1; bAct = a; bErr = e
 //@   on call Node.Prep(n, c, s) returns (v, e)
 //@     requires [C01] n == node && c == ctx && s == shared && ph == 0
 //@     requires [C05] !cancelled@entry
@@ -70,6 +75,7 @@ package flyt
 //@   loop 1 invariant [C02] nExec <= budget(node)
 //@   loop 1 invariant [C20] lastEnd <= now
 //@   loop 1 decreases [C02] budget(node) - nExec
+//@   ensures [C04,C06,C18] isBatch(node) ==> nBatch == 1 && act == bAct && err == bErr && ph == 0
 //@   ensures [C01,C18] !isBatch(node) ==> (err == nil && act != "") || (err != nil && act == "")
 //@   ensures [C01] !isBatch(node) ==> (err == nil <==> ph == 4 && postErr == nil)
 //@   ensures [C01,C18] !isBatch(node) && err == nil ==> act == norm(postAct)
@@ -96,6 +102,7 @@ package flyt
 //@   requires okNode(start)
 //@   havoc user
 //@   ensures [C03] fresh(f) && f.start == start && flowRep(f)
+//@   ensures [C03,C10,C19] f.BaseNode != nil && baseDefaults(f.BaseNode)
 //@   ensures [C03] forall n Node :: !has(f.transitions, n)
 
 //@ func (*Flow).Connect(f, from, action, to) (r)
@@ -104,6 +111,15 @@ package flyt
 //@   havoc alloc
 //@   ensures [C03] r == f && flowRep(f) && f.start == old(f.start)
 //@   ensures [C03] forall n Node :: forall a Action :: nextNode(f, n, a) == ((n == from && a == action) ? to : old(nextNode(f, n, a)))
+
+//@ func (*Flow).Run(f, ctx, shared) (err)
+//@   requires f != nil && ctx != nil
+//@   havoc user
+//@   ghost n int = 0; re error = nil
+//@   on call Run(c, nd, s) returns (a, e)
+//@     requires [C03,C04,C05,C10] n == 0 && c == ctx && nd == box(f, *Flow) && s == shared
+//@     effect n = 1; re = e
+//@   ensures [C03,C04,C05,C10] n == 1 && err == re
 
 //@ func (*Flow).Prep(f, ctx, shared) (v, err)
 //@   ensures [C10] err == nil && v == box(shared, *SharedStore)
@@ -579,9 +595,19 @@ package flyt
 //@   ensures [C15] panicked ==> !isStr(r.value)
 //@ func (*SharedStore).GetString(s, key) (x)
 //@   requires s != nil
+//@   ghost nGet int = 0
+//@   on call (*SharedStore).Get(ss, k) returns (gv, gok)
+//@     requires [C13] nGet == 0 && ss == s && k == key
+//@     effect nGet++
+//@   ensures [C13] nGet == 1
 //@   ensures [C15] x == (has(s.data, key) && isStr(s.data[key]) ? s.data[key].(string) : "")
 //@ func (*SharedStore).GetStringOr(s, key, d) (x)
 //@   requires s != nil
+//@   ghost nGet int = 0
+//@   on call (*SharedStore).Get(ss, k) returns (gv, gok)
+//@     requires [C13] nGet == 0 && ss == s && k == key
+//@     effect nGet++
+//@   ensures [C13] nGet == 1
 //@   ensures [C15] x == (has(s.data, key) && isStr(s.data[key]) ? s.data[key].(string) : d)
 //@ func Result.AsInt(r) (x, ok)
 //@   ensures [C15] ok == isNum(r.value) && x == (isNum(r.value) ? intOf(r.value) : 0)
@@ -593,9 +619,19 @@ package flyt
 //@   ensures [C15] panicked ==> !isNum(r.value)
 //@ func (*SharedStore).GetInt(s, key) (x)
 //@   requires s != nil
+//@   ghost nGet int = 0
+//@   on call (*SharedStore).GetIntOr(ss, k, d) returns (gv)
+//@     requires [C13] nGet == 0 && ss == s && k == key
+//@     effect nGet++
+//@   ensures [C13] nGet == 1
 //@   ensures [C15] x == (has(s.data, key) && isNum(s.data[key]) ? intOf(s.data[key]) : 0)
 //@ func (*SharedStore).GetIntOr(s, key, d) (x)
 //@   requires s != nil
+//@   ghost nGet int = 0
+//@   on call (*SharedStore).Get(ss, k) returns (gv, gok)
+//@     requires [C13] nGet == 0 && ss == s && k == key
+//@     effect nGet++
+//@   ensures [C13] nGet == 1
 //@   ensures [C15] x == (has(s.data, key) && isNum(s.data[key]) ? intOf(s.data[key]) : d)
 //@ func Result.AsFloat64(r) (x, ok)
 //@   ensures [C15] ok == isNum(r.value) && x == (isNum(r.value) ? floatOf(r.value) : fzero())
@@ -607,9 +643,19 @@ package flyt
 //@   ensures [C15] panicked ==> !isNum(r.value)
 //@ func (*SharedStore).GetFloat64(s, key) (x)
 //@   requires s != nil
+//@   ghost nGet int = 0
+//@   on call (*SharedStore).GetFloat64Or(ss, k, d) returns (gv)
+//@     requires [C13] nGet == 0 && ss == s && k == key
+//@     effect nGet++
+//@   ensures [C13] nGet == 1
 //@   ensures [C15] x == (has(s.data, key) && isNum(s.data[key]) ? floatOf(s.data[key]) : fzero())
 //@ func (*SharedStore).GetFloat64Or(s, key, d) (x)
 //@   requires s != nil
+//@   ghost nGet int = 0
+//@   on call (*SharedStore).Get(ss, k) returns (gv, gok)
+//@     requires [C13] nGet == 0 && ss == s && k == key
+//@     effect nGet++
+//@   ensures [C13] nGet == 1
 //@   ensures [C15] x == (has(s.data, key) && isNum(s.data[key]) ? floatOf(s.data[key]) : d)
 //@ func Result.AsBool(r) (x, ok)
 //@   ensures [C15] ok == isBoolV(r.value) && x == (isBoolV(r.value) ? r.value.(bool) : false)
@@ -621,9 +667,19 @@ package flyt
 //@   ensures [C15] panicked ==> !isBoolV(r.value)
 //@ func (*SharedStore).GetBool(s, key) (x)
 //@   requires s != nil
+//@   ghost nGet int = 0
+//@   on call (*SharedStore).GetBoolOr(ss, k, d) returns (gv)
+//@     requires [C13] nGet == 0 && ss == s && k == key
+//@     effect nGet++
+//@   ensures [C13] nGet == 1
 //@   ensures [C15] x == (has(s.data, key) && isBoolV(s.data[key]) ? s.data[key].(bool) : false)
 //@ func (*SharedStore).GetBoolOr(s, key, d) (x)
 //@   requires s != nil
+//@   ghost nGet int = 0
+//@   on call (*SharedStore).Get(ss, k) returns (gv, gok)
+//@     requires [C13] nGet == 0 && ss == s && k == key
+//@     effect nGet++
+//@   ensures [C13] nGet == 1
 //@   ensures [C15] x == (has(s.data, key) && isBoolV(s.data[key]) ? s.data[key].(bool) : d)
 //@ func Result.AsMap(r) (x, ok)
 //@   ensures [C15] ok == isMapV(r.value) && x == (isMapV(r.value) ? r.value.(map[string]any) : nil)
@@ -635,9 +691,19 @@ package flyt
 //@   ensures [C15] panicked ==> !isMapV(r.value)
 //@ func (*SharedStore).GetMap(s, key) (x)
 //@   requires s != nil
+//@   ghost nGet int = 0
+//@   on call (*SharedStore).GetMapOr(ss, k, d) returns (gv)
+//@     requires [C13] nGet == 0 && ss == s && k == key
+//@     effect nGet++
+//@   ensures [C13] nGet == 1
 //@   ensures [C15] x == (has(s.data, key) && isMapV(s.data[key]) ? s.data[key].(map[string]any) : nil)
 //@ func (*SharedStore).GetMapOr(s, key, d) (x)
 //@   requires s != nil
+//@   ghost nGet int = 0
+//@   on call (*SharedStore).Get(ss, k) returns (gv, gok)
+//@     requires [C13] nGet == 0 && ss == s && k == key
+//@     effect nGet++
+//@   ensures [C13] nGet == 1
 //@   ensures [C15] x == (has(s.data, key) && isMapV(s.data[key]) ? s.data[key].(map[string]any) : d)
 
 // ToSlice: nil -> empty, []any -> itself, any other slice -> its elements in order, anything else -> one element
@@ -703,6 +769,11 @@ package flyt
 //@   ensures [C15] panicked ==> nAS == 1 && !aok
 //@ func (*SharedStore).GetSliceOr(s, key, d) (x)
 //@   requires s != nil
+//@   ghost nGet int = 0
+//@   on call (*SharedStore).Get(ss, k) returns (gv, gok)
+//@     requires [C13] nGet == 0 && ss == s && k == key
+//@     effect nGet++
+//@   ensures [C13] nGet == 1
 //@   havoc alloc
 //@   ghost nTS int = 0; ts []any = slice(0, 0, 0, 0)
 //@   on call ToSlice(v) returns (sl)
@@ -736,6 +807,11 @@ package flyt
 //@   ensures [C16] bindSpec(r.value, dest, err, old(pointee(dest)), pointee(dest))
 //@ func (*SharedStore).Bind(s, key, dest) (err)
 //@   requires s != nil
+//@   ghost nGet int = 0
+//@   on call (*SharedStore).Get(ss, k) returns (gv, gok)
+//@     requires [C13] nGet == 0 && ss == s && k == key
+//@     effect nGet++
+//@   ensures [C13] nGet == 1
 //@   assigns [C16] pointee(dest)
 //@   ensures [C16] !has(s.data, key) ==> err != nil && pointee(dest) == old(pointee(dest))
 //@   ensures [C16] has(s.data, key) && s.data[key] != nil ==> bindSpec(s.data[key], dest, err, old(pointee(dest)), pointee(dest))
